@@ -7,15 +7,20 @@ Model driver for C15.
 
 `modeld_c15 accept` : lines `op\tobs` in → `ok` / `REJECT why` out.
   * waterfall ops (deterministic — every op runs to quiescence in the bubble):
-    the chain model (`Waterfall.fire`) is executed and the implementation's
-    event list must be *equal* to the model's;
+    the chain model (`Waterfall.fire`, one instance per chain, a FIFO of
+    closure owners as the scheduler channel) is executed and the
+    implementation's event list must be *equal* to the model's;
   * scheduler ops (the interleaving of concurrent posters and the number of
     closures a stopped consumer still drains are legitimately nondeterministic):
-    the observation must be one the scheduler model can produce — per-poster
-    consecutive execution, executed ⊆ accepted, channel FIFO between posts that
-    did not overlap in time, fill level = accepted − executed ≤ cap, a poster is
-    blocked only on a full channel, everything runs when the consumer is free,
-    nothing is accepted after `Stop`, a single consumer goroutine.
+    1. per op, the harness-level constraints: nothing runs while the consumer is
+       not started / parked / gone, everything accepted has run when the consumer
+       is free, per-poster consecutive execution, channel FIFO between posts that
+       did not overlap in time, fill = accepted − executed ≤ cap, a poster blocks
+       only on a full channel, nothing is accepted after `Stop`, one consumer
+       goroutine;
+    2. at the `end` op, the whole case is replayed through `Sche.fire` (shipped
+       configuration): an explicit label sequence is constructed that reproduces
+       every observation; the case is accepted only if every label is enabled.
 `modeld_c15 spec`   : the property predicate itself on the implementation's
   observations (own bookkeeping, independent of the model) → `ok` / `VIOLATION <sig> <why>`.
 `modeld_c15 model`  : prints the model's observation for waterfall ops, `?` for scheduler ops.
@@ -376,6 +381,7 @@ structure RP where
   held : Bool := false
   stopped : Bool := false
   gone : Bool := false
+  fresh : Nat := 0     -- model steps since the function-valued fields were last rebuilt
 
 def RP.kindOf (r : RP) (p k : Nat) : Kind :=
   match r.kinds.find? (·.1 = p) with
@@ -396,22 +402,23 @@ def normalize (ps : List Nat) (m : Sche.St) : Sche.St :=
     out := fun q => ((to.find? (·.1 = q)).map (·.2)).getD none
     acc := fun q => ((ta.find? (·.1 = q)).map (·.2)).getD 0 }
 
-def fireE (m : Sche.St) (l : Label) (what : String) : Except String Sche.St :=
+def fireE (m : Sche.St) (l : Label) (what : Unit → String) : Except String Sche.St :=
   match Sche.fire shipped m l with
   | some m' => .ok m'
-  | none => .error s!"model step not enabled: {what}"
+  | none => .error s!"model step not enabled: {what ()}"
 
 /-- poster `p` gets closure `k` into the channel: `call` (unless the send is already outstanding) then `send` -/
 def sendItem (r : RP) (p k : Nat) : Except String RP := do
   let m ← if (r.m.out p).isNone then
       (if r.m.next p ≠ k then throw s!"model: poster {p} would post closure {r.m.next p}, observation needs {k}"
-       else fireE r.m (.call p (r.kindOf p k)) s!"call {p}.{k}")
+       else fireE r.m (.call p (r.kindOf p k)) fun _ => s!"call {p}.{k}")
     else pure r.m
   match m.out p with
   | some it =>
     if it.seq ≠ k then throw s!"model: poster {p} has closure {it.seq} outstanding, observation needs {k}"
-    let m ← fireE m (.send p) s!"send {p}.{k} (channel holds {m.chan.length})"
-    return { r with m := m }
+    let m ← fireE m (.send p) fun _ => s!"send {p}.{k} (channel holds {m.chan.length})"
+    if r.fresh ≥ 24 then return { r with m := normalize (r.kinds.map (·.1)) m, fresh := 0 }
+    else return { r with m := m, fresh := r.fresh + 1 }
   | none => throw s!"model: poster {p} has no outstanding send (overflow path?)"
 
 def replayOp (rank : Nat → Nat → Nat) (r : RP) (rec : OpRec) : Except String RP := do
@@ -425,7 +432,7 @@ def replayOp (rank : Nat → Nat → Nat) (r : RP) (rec : OpRec) : Except String
   | some "start" => r := { r with started := true }
   | some "release" => r := { r with held := false }
   | some "stop" =>
-    let m ← fireE r.m .stop "stop"
+    let m ← fireE r.m .stop fun _ => "stop"
     r := { r with m := m, stopped := true }
   | _ => throw "bad-op"
   -- closures accepted during this op, in channel order
@@ -446,7 +453,7 @@ def replayOp (rank : Nat → Nat → Nat) (r : RP) (rec : OpRec) : Except String
       | (_, q, j) :: rest =>
         r ← sendItem r q j
         todo := rest
-    let m ← fireE r.m .consume s!"consume (expecting {p}.{k})"
+    let m ← fireE r.m .consume fun _ => s!"consume (expecting {p}.{k})"
     match m.log with
     | [it] =>
       if it.poster ≠ p || it.seq ≠ k then
@@ -468,7 +475,7 @@ def replayOp (rank : Nat → Nat → Nat) (r : RP) (rec : OpRec) : Except String
     if row.blk = 1 then
       if (r.m.out p).isNone then
         let k := r.m.next p
-        let m ← fireE r.m (.call p (r.kindOf p k)) s!"call {p}.{k}"
+        let m ← fireE r.m (.call p (r.kindOf p k)) fun _ => s!"call {p}.{k}"
         r := { r with m := m }
       if (Sche.fire shipped r.m (.send p)).isSome then
         throw s!"poster {p} is blocked although the model's send is enabled (channel holds {r.m.chan.length} of {shipped.cap})"
@@ -479,7 +486,7 @@ def replayOp (rank : Nat → Nat → Nat) (r : RP) (rec : OpRec) : Except String
   if r.m.chan.length ≠ o.fill then throw s!"model: channel holds {r.m.chan.length}, implementation {o.fill}"
   if r.m.crashedPosters ≠ [] then throw "model: a poster crashed"
   if r.stopped && r.started && !r.held && !r.gone then
-    let m ← fireE r.m .quit "quit"
+    let m ← fireE r.m .quit fun _ => "quit"
     r := { r with m := m, gone := true }
   return { r with m := normalize (o.rows.map (·.p)) r.m }
 
